@@ -39,11 +39,7 @@ from exec import Explorer, Interp, Int, Adt, Enum, Cell, Ref, BoxRef, Tup, PathE
 from models import MODELS, VecObj, SliceRef, StringObj, LruObj, as_slice, deref
 from adts import load_enums
 from anyval import AnyBuilder, load_structs
-from c15dict import is_letter, lower, seq_eq, chars_of
-
-
-def upper(c):
-    return z3.If(z3.And(z3.UGE(c, 97), z3.ULE(c, 122)), c - 32, c)
+from c15dict import is_letter, is_lower, lower, upper, seq_eq, chars_of
 
 
 def run(mir_path, scenario, src_dir):
@@ -69,11 +65,11 @@ def run(mir_path, scenario, src_dir):
 
         def hash_one(it_, callee, args):
             cs = chars_of(args[1])
-            if len(cs) > 8:
-                raise Unsupported("hash_one of a word longer than 8 chars")
+            if len(cs) > 7:
+                raise Unsupported("hash_one of a word longer than 7 chars")
             t = z3.BitVecVal(len(cs), 64)
             for c in cs:
-                t = (t << 7) | z3.ZeroExt(32, c & 0x7F)
+                t = (t << 8) | z3.ZeroExt(32, c & 0xFF)
             return Int(t, 64, False)
 
         it = Interp(raw, MODELS, ctx, {r"as BuildHasher>::hash_one::<": hash_one}, enums=enums)
@@ -187,7 +183,7 @@ def run(mir_path, scenario, src_dir):
                 claims.append((reported, "a word the dictionary does not contain under any capitalisation is not reported"))
             else:
                 # listed capitalisation, or a capitalised / upper-case form of a lower-case entry
-                w_is_lower = z3.And(*[z3.UGE(c, 97) for c in w])
+                w_is_lower = z3.And(*[is_lower(c) for c in w])
                 cap_form = seq_eq(cs, [upper(w[0])] + list(w[1:]))
                 up_form = seq_eq(cs, [upper(c) for c in w])
                 listed = z3.Or(seq_eq(cs, w), z3.And(w_is_lower, z3.Or(cap_form, up_form)))
